@@ -390,6 +390,7 @@ func tryEvalCheck(r *rep.Run, kleene bool) {
 	tryEvalLateVariable(r)
 	tryEvalDottedNames(r)
 	tryEvalCallerContext(r)
+	tryEvalDeepClimbs(r)
 	if !kleene {
 		tryEvalUserOperators(r)
 		tryEvalValues(r)
@@ -934,4 +935,125 @@ func tryEvalCallerContext(r *rep.Run) {
 	})
 	r.Cov["caller_context_runs"] = runs
 	r.Add(0, runs, runs, runs, 0)
+}
+
+// tryEvalDeepClimbs: the unknown (or deciding) operand sits EVERY distance from
+// 0 to 200 (thorough: 400) unary operators below the `if`, and/or or n-ary
+// operator that has to cope with it (chains of not / a registered unary
+// operator / (+ 0 .)), in five surrounding shapes, optimisations off and all
+// on, every split and binding. Oracle as in the main sweep: a definite Kleene
+// value must be returned exactly; otherwise DNE or a value confirmed by real
+// Eval on every completion.
+func tryEvalDeepClimbs(r *rep.Run) {
+	maxD := 200
+	if r.Thorough() {
+		maxD = 400
+	}
+	hs := harnesses(r.Workers)
+	var runs, definite int64
+	r.ParallelFor(maxD+1, func(w, d int) {
+		h := hs[w]
+		r.Note(w, sprintf("climb distance %d", d))
+		bvar := func(n string) *term.Term { return term.KeptVar(n, B) }
+		chainB := func(op string, leaf *term.Term) *term.Term {
+			t := leaf
+			for i := 0; i < d; i++ {
+				t = term.Op(op, B, t)
+			}
+			return t
+		}
+		chainI := func(leaf *term.Term) *term.Term {
+			t := leaf
+			for i := 0; i < d; i++ {
+				t = term.Op("+", I, term.Const(int64(0)), t)
+			}
+			return t
+		}
+		var trees []*term.Term
+		for _, op := range []string{"not", "p"} {
+			trees = append(trees,
+				term.Op("or", B, bvar("s"), term.Op("=", B, term.If(chainB(op, bvar("beta")), term.Const(int64(1)), term.Const(int64(2))), term.Const(int64(1)))),
+				term.Op("and", B, bvar("s"), chainB(op, term.Op("or", B, bvar("beta"), bvar("t")))),
+				term.Op("=", B, term.Op("+", I, term.Const(int64(1)), term.If(chainB(op, bvar("beta")), term.Const(int64(1)), term.Const(int64(2)))), term.Const(int64(2))),
+				term.If(chainB(op, term.Op("and", B, bvar("beta"), bvar("s"))), bvar("t"), chainB(op, bvar("s"))))
+		}
+		trees = append(trees, term.Op("or", B, bvar("s"), term.Op("=", B, chainI(term.If(bvar("beta"), term.Const(int64(1)), term.Const(int64(2)))), term.Const(int64(1)))),
+			term.Op("and", B, term.Op("=", B, chainI(term.KeptVar("n", I)), term.Const(int64(1))), bvar("s")))
+		for _, t := range trees {
+			p := MkProg(t)
+			k := len(p.Vars)
+			cs := compileAll(r, h, p, []drive.Opt{{}, {CF: true, RN: true, FE: true, RO: true}})
+			doms := Doms(p.Vars, false)
+			vals := make([]interface{}, k)
+			// real Eval per full binding
+			for ci := range cs {
+				c := &cs[ci]
+				evalOf := map[string]drive.Out{}
+				drive.ForBindings(doms, vals, func() bool {
+					copy(c.f.Vals, vals)
+					c.f.Avail = nil
+					h.Reset()
+					evalOf[fmt.Sprint(vals)] = h.Eval(c.e, c.f)
+					return true
+				})
+				drive.ForBindings(doms, vals, func() bool {
+					for mask := 0; mask < 1<<k; mask++ {
+						avail := make([]bool, k)
+						env := envFor(p.Vars, vals)
+						for v := range avail {
+							avail[v] = mask&(1<<v) != 0
+							if !avail[v] {
+								env.Vals[p.Vars[v].Name] = ref.Unknown
+							}
+						}
+						copy(c.f.Vals, vals)
+						c.f.Avail = avail
+						h.Reset()
+						got := h.TryEval(c.e, c.f)
+						c.f.Avail = nil
+						atomic.AddInt64(&runs, 1)
+						kv, kerr := env.Kleene(t)
+						dsc := func() map[string]interface{} {
+							return caseDesc(trunc(p.Src, 300), c.o, p.Vars, vals, avail, map[string]interface{}{"unary_operators_between": d})
+						}
+						if kerr != nil {
+							continue
+						}
+						if got.Panic != nil || got.Err != nil {
+							r.Violate("deep-climb", sprintf("err%d%s", d, c.o), sprintf("with %d unary operators between the unknown operand and the operator that receives it, TryEval gives %s (three-valued evaluation: %v)", d, got, kv), dsc())
+							continue
+						}
+						if kv != ref.Unknown {
+							atomic.AddInt64(&definite, 1)
+							if !ref.ValEqual(got.Val, kv) {
+								r.Violate("deep-climb", sprintf("kleene%d%s", d, c.o), sprintf("with %d unary operators in between, three-valued evaluation decides %v but TryEval returns %s", d, kv, got), dsc())
+							}
+							continue
+						}
+						if isDNE(got.Val) {
+							continue
+						}
+						// a definite answer where Kleene is undecided: every completion on which Eval succeeds must agree
+						comp := make([]interface{}, k)
+						drive.ForBindings(doms, comp, func() bool {
+							for v := range comp {
+								if avail[v] && comp[v] != vals[v] {
+									return true
+								}
+							}
+							if ev := evalOf[fmt.Sprint(comp)]; ev.Err == nil && ev.Panic == nil && !ref.ValEqual(ev.Val, got.Val) {
+								r.Violate("deep-climb", sprintf("contradicted%d%s", d, c.o), sprintf("with %d unary operators in between TryEval answers %s, but Eval returns %v once the unavailable variables are %v", d, got, ev.Val, comp), dsc())
+								return false
+							}
+							return true
+						})
+					}
+					return true
+				})
+			}
+		}
+	})
+	r.Cov["deep_climb_runs"] = runs
+	r.Cov["deep_climb_max_distance"] = maxD
+	r.Add(0, runs, runs, runs, definite)
 }
